@@ -4,82 +4,81 @@ import TonicModel.Lemmas.Status
 /-
 C04 — Status survives the header encoding; reading any headers is total.
 Property theorems only; helper lemmas live in `Lemmas/Status.lean` and `Basic/*`.
-`Variant.fixed` is the tree with fixes/fix-C04-*.patch applied (what the correspondence run
-drives); `Variant.orig` is the pinned tree, for which the `_fails` witnesses are proved.
+`Variant.fixed` is the tree with fixes/fix-C04-*.patch and fix-C12-status-details-metadata.patch
+applied (what the correspondence run drives); `Variant.orig` is the pinned tree, for which the `_fails` witnesses are proved.
 -/
 namespace C04
 open Status
 
 /-! ## writing -/
 
-/-- Writing a status into headers never fails, whatever the code, message bytes, details and
-metadata: `add_header` returns `Ok` (its `Err` branch — a value that is not a legal header
-value — is unreachable). -/
-theorem C04_write_never_fails (st : St) (h0 : HMap) : ∃ h, addHeader st h0 = .ok h :=
-  ⟨wire st h0, addHeader_eq st h0⟩
+/-- Writing a status into headers never fails, whatever the code, message bytes, details,
+metadata and the block written into: `add_header` returns `Ok` (its `Err` branch — a value that
+is not a legal header value — is unreachable). -/
+theorem C04_write_never_fails (v : Variant) (st : St) (h0 : HMap) : ∃ h, addHeader v st h0 = .ok h :=
+  ⟨wire v st h0, addHeader_eq v st h0⟩
 
-/-- The header block written for a status, name by name: `grpc-status` is the code's decimal,
-`grpc-message` is present iff the message is non-empty and is its percent-encoding,
-`grpc-status-details-bin` (for non-empty details) is the unpadded base64 of the details, and
-every other name carries exactly the metadata's values for that name, in order, unless the name
-is reserved, in which case nothing is written. -/
-theorem C04_wire_form (st : St) (h : HMap) (hw : toHeaderMap st = .ok h) (k : Bytes) :
+/-- The header block `add_header` makes out of `h0` (`h0 = []`: trailers; `h0 = [content-type]`:
+a trailers-only response), name by name: `grpc-status` is the code's decimal; a non-empty message
+is written as its percent-encoding under `grpc-message`, non-empty details as their unpadded
+base64 under `grpc-status-details-bin`; every custom name (not reserved, not the details header)
+that the metadata has carries exactly the metadata's values for it, in order; everything else
+is left as it was in `h0` — in particular nothing from the metadata appears under a reserved name. -/
+theorem C04_wire_form (st : St) (h0 h : HMap) (hw : addHeader .fixed st h0 = .ok h) (k : Bytes) :
     HMap.getAll k h =
       if k = GRPC_STATUS then [st.code.headerValue]
-      else if k = GRPC_MESSAGE then (if st.message = [] then [] else [Pct.encode st.message])
-      else if k = GRPC_STATUS_DETAILS then
-        (if st.details = [] then HMap.getAll k st.metadata else [B64.encode false st.details])
-      else if k ∈ reservedHeaders then [] else HMap.getAll k st.metadata := by
-  rw [toHeaderMap, addHeader_eq] at hw
+      else if k = GRPC_MESSAGE ∧ st.message ≠ [] then [Pct.encode st.message]
+      else if k = GRPC_STATUS_DETAILS ∧ st.details ≠ [] then [B64.encode false st.details]
+      else if isCustom k = true ∧ HMap.getAll k st.metadata ≠ [] then HMap.getAll k st.metadata
+      else HMap.getAll k h0 := by
+  rw [addHeader_eq] at hw
   cases hw
-  exact getAll_wire st k
+  exact getAll_wire st h0 k
 
-/-- Every header value produced is a legal HTTP header value (HTAB, SP–~, obs-text), given that
-the metadata's own values are (which `HeaderValue` guarantees); the `grpc-message` value is
-moreover a spec-conformant `Percent-Encoded` string of visible ASCII. -/
-theorem C04_values_legal (st : St) (h : HMap) (hw : toHeaderMap st = .ok h)
-    (hmd : ∀ e ∈ st.metadata, Spec.Status.legalHeaderValue e.2 = true) :
+private theorem legal_of (w : Bytes) (hw' : HMap.legalValue w = true) : Spec.Status.legalHeaderValue w = true := by
+  simp only [HMap.legalValue, Spec.Status.legalHeaderValue, List.all_eq_true] at hw' ⊢
+  intro b hb
+  have := hw' b hb
+  simp only [HMap.legalValueByte, Spec.Status.legalHeaderByte, Bool.or_eq_true, Bool.and_eq_true,
+    decide_eq_true_eq, bne_iff_ne, beq_iff_eq] at this ⊢
+  omega
+
+/-- Every header value in the block is a legal HTTP header value (HTAB, SP–~, obs-text), given
+that the metadata's own values and those already in `h0` are (which `HeaderValue` guarantees);
+a `grpc-message` value written for a non-empty message is moreover visible ASCII without space
+(a spec-conformant `Percent-Encoded` string). -/
+theorem C04_values_legal (st : St) (h0 h : HMap) (hw : addHeader .fixed st h0 = .ok h)
+    (hmd : ∀ e ∈ st.metadata, Spec.Status.legalHeaderValue e.2 = true)
+    (h0l : ∀ e ∈ h0, Spec.Status.legalHeaderValue e.2 = true) :
     (∀ e ∈ h, Spec.Status.legalHeaderValue e.2 = true) ∧
-    (∀ v ∈ HMap.getAll GRPC_MESSAGE h, ∀ b ∈ v, 33 ≤ b.toNat ∧ b.toNat ≤ 126) := by
+    (st.message ≠ [] → ∀ v ∈ HMap.getAll GRPC_MESSAGE h, ∀ b ∈ v, 33 ≤ b.toNat ∧ b.toNat ≤ 126) := by
   constructor
   · intro e he
     have hv : e.2 ∈ HMap.getAll e.1 h := HMap.mem_getAll_of_mem (k := e.1) (v := e.2) (by simpa using he)
-    rw [C04_wire_form st h hw e.1] at hv
-    have legal_of : ∀ w : Bytes, HMap.legalValue w = true → Spec.Status.legalHeaderValue w = true := by
-      intro w hw'
-      simp only [HMap.legalValue, Spec.Status.legalHeaderValue, List.all_eq_true] at hw' ⊢
-      intro b hb
-      have := hw' b hb
-      simp only [HMap.legalValueByte, Spec.Status.legalHeaderByte, Bool.or_eq_true, Bool.and_eq_true,
-        decide_eq_true_eq, bne_iff_ne, beq_iff_eq] at this ⊢
-      omega
+    rw [C04_wire_form st h0 h hw e.1] at hv
     have from_md : ∀ k, e.2 ∈ HMap.getAll k st.metadata → Spec.Status.legalHeaderValue e.2 = true :=
       fun k hk => hmd (k, e.2) (HMap.mem_of_mem_getAll hk)
+    have from_h0 : ∀ k, e.2 ∈ HMap.getAll k h0 → Spec.Status.legalHeaderValue e.2 = true :=
+      fun k hk => h0l (k, e.2) (HMap.mem_of_mem_getAll hk)
     split at hv
     · have : e.2 = st.code.headerValue := by simpa using hv
       rw [this]; cases st.code <;> decide
     · split at hv
+      · have : e.2 = Pct.encode st.message := by simpa using hv
+        rw [this]; exact legal_of _ (pct_encode_legal _)
       · split at hv
-        · cases hv
-        · have : e.2 = Pct.encode st.message := by simpa using hv
-          rw [this]; exact legal_of _ (pct_encode_legal _)
-      · split at hv
+        · have : e.2 = B64.encode false st.details := by simpa using hv
+          rw [this]; exact legal_of _ (b64_encode_legal _ _)
         · split at hv
           · exact from_md _ hv
-          · have : e.2 = B64.encode false st.details := by simpa using hv
-            rw [this]; exact legal_of _ (b64_encode_legal _ _)
-        · split at hv
-          · cases hv
-          · exact from_md _ hv
-  · intro v hv b hb
-    rw [C04_wire_form st h hw GRPC_MESSAGE] at hv
+          · exact from_h0 _ hv
+  · intro hm v hv b hb
+    rw [C04_wire_form st h0 h hw GRPC_MESSAGE] at hv
     have n := names_ne
-    simp only [n.1.symm, if_false, if_true] at hv
-    split at hv
-    · cases hv
-    · have : v = Pct.encode st.message := by simpa using hv
-      subst this
-      exact Pct.encode_visible _ b hb
+    simp only [n.1.symm, if_false, true_and, hm, ne_eq, not_false_eq_true, if_true] at hv
+    have : v = Pct.encode st.message := by simpa using hv
+    subst this
+    exact Pct.encode_visible _ b hb
 
 /-! ## round trip -/
 
@@ -102,25 +101,32 @@ private theorem getAll_stripStatus (k : Bytes) (h : HMap) :
       · rw [HMap.getAll_remove_ne _ _ _ k1]; simp [k1, k2, k3]
 
 /-- **Round trip.** For every status — any of the 17 codes, any valid-UTF-8 message (controls,
-`%`, non-ASCII, empty), any details byte string, any metadata whose entries are custom (the
-metadata does not itself carry a `grpc-status-details-bin` entry while the details are empty) —
-writing it to a header block and reading that block back yields exactly the same code, message
-and details. -/
-theorem C04_status_roundtrip (st : St) (hutf : Utf8.valid st.message = true)
-    (hcustom : st.details ≠ [] ∨ HMap.getAll GRPC_STATUS_DETAILS st.metadata = []) :
-    ∃ h, toHeaderMap st = .ok h ∧
+`%`, non-ASCII, empty), any details byte string, any metadata — written into any block `h0`
+that does not already hold a message or details header (`[]` for trailers, `[content-type]`
+for a trailers-only response), reading the block back yields exactly the same code, message
+and details; and its metadata has, under every custom name the status' metadata had, exactly
+those values in that order, nothing under the status names, and otherwise what `h0` had. -/
+theorem C04_status_roundtrip (st : St) (h0 : HMap) (hutf : Utf8.valid st.message = true)
+    (hm0 : HMap.getAll GRPC_MESSAGE h0 = []) (hd0 : HMap.getAll GRPC_STATUS_DETAILS h0 = []) :
+    ∃ h, addHeader .fixed st h0 = .ok h ∧
       fromHeaderMap .fixed h = some (.status
-        { code := st.code, message := st.message, details := st.details, metadata := stripStatus h }) := by
+        { code := st.code, message := st.message, details := st.details, metadata := stripStatus h }) ∧
+      ∀ k, HMap.getAll k (stripStatus h) =
+        if k = GRPC_STATUS ∨ k = GRPC_MESSAGE ∨ k = GRPC_STATUS_DETAILS then []
+        else if isCustom k = true ∧ HMap.getAll k st.metadata ≠ [] then HMap.getAll k st.metadata
+        else HMap.getAll k h0 := by
   obtain ⟨n1, n2, n3, n4, n5, n6⟩ := names_ne
-  have hw : toHeaderMap st = .ok (wire st []) := addHeader_eq st []
-  have g := C04_wire_form st _ hw
+  have hw : addHeader .fixed st h0 = .ok (wire .fixed st h0) := addHeader_eq .fixed st h0
+  have g := C04_wire_form st h0 _ hw
   have gS := g GRPC_STATUS
   have gM := g GRPC_MESSAGE
   have gD := g GRPC_STATUS_DETAILS
+  have cM : isCustom GRPC_MESSAGE = false := by decide
+  have cD : isCustom GRPC_STATUS_DETAILS = false := by decide
   simp only [if_true] at gS
-  simp only [n1.symm, if_false, if_true] at gM
-  simp only [n2.symm, n3.symm, if_false, if_true] at gD
-  have hmsg : decodeMessage (wire st []) = .ok st.message := by
+  simp only [n1.symm, n3, if_false, true_and, false_and, cM, Bool.false_eq_true, hm0] at gM
+  simp only [n2.symm, n3.symm, if_false, true_and, false_and, cD, Bool.false_eq_true, hd0] at gD
+  have hmsg : decodeMessage (wire .fixed st h0) = .ok st.message := by
     unfold decodeMessage HMap.get
     rw [gM]
     by_cases hm : st.message = []
@@ -128,48 +134,45 @@ theorem C04_status_roundtrip (st : St) (hutf : Utf8.valid st.message = true)
     · have hv : Utf8.validate st.message = none := by simpa [Utf8.valid] using hutf
       simp [hm, Pct.decode_encode, hv]
   have hcode : Code.fromBytes st.code.headerValue = st.code := by cases st.code <;> decide
-  refine ⟨_, hw, ?_⟩
-  unfold fromHeaderMap stripStatus
-  by_cases hd : st.details = []
-  · have hg : HMap.getAll GRPC_STATUS_DETAILS st.metadata = [] := by
-      rcases hcustom with h | h
-      · exact absurd hd h
-      · exact h
-    simp only [HMap.get, gS, gD, hd, if_true, hg, List.head?_nil, List.head?_cons, hmsg, hcode]
-  · simp only [HMap.get, gS, gD, hd, if_false, List.head?_cons, B64.decode_encode, hmsg, hcode]
-
-/-- **Round trip, metadata.** With no side condition at all: the block written for a status is
-always read back as a status (never absent, never a panic), whose metadata has, for every
-name that is neither reserved nor one of the status headers, exactly the original values in
-the original order, and nothing under the reserved and status names. -/
-theorem C04_metadata_roundtrip (st : St) :
-    ∃ h st', toHeaderMap st = .ok h ∧ fromHeaderMap .fixed h = some (.status st') ∧
-      ∀ k, HMap.getAll k st'.metadata =
-        if k ∈ reservedHeaders ∨ k = GRPC_STATUS_DETAILS then [] else HMap.getAll k st.metadata := by
-  obtain ⟨n1, n2, n3, n4, n5, n6⟩ := names_ne
-  have hw : toHeaderMap st = .ok (wire st []) := addHeader_eq st []
-  have g := C04_wire_form st _ hw
-  have gS := g GRPC_STATUS
-  simp only [if_true] at gS
-  have hget : HMap.get GRPC_STATUS (wire st []) = some st.code.headerValue := by
-    simp [HMap.get, gS]
-  have hmeta : ∀ k, HMap.getAll k (stripStatus (wire st [])) =
-      if k ∈ reservedHeaders ∨ k = GRPC_STATUS_DETAILS then [] else HMap.getAll k st.metadata := by
-    intro k
+  refine ⟨_, hw, ?_, ?_⟩
+  · unfold fromHeaderMap stripStatus
+    by_cases hd : st.details = []
+    · simp only [HMap.get, gS, gD, hd, ne_eq, not_true_eq_false, if_false, List.head?_nil, List.head?_cons, hmsg, hcode]
+    · simp only [HMap.get, gS, gD, hd, ne_eq, not_false_eq_true, if_true, List.head?_cons, B64.decode_encode, hmsg, hcode]
+  · intro k
     rw [getAll_stripStatus, g k]
     by_cases k1 : k = GRPC_STATUS
-    · subst k1; simp [n5]
+    · subst k1; simp
     · by_cases k2 : k = GRPC_MESSAGE
-      · subst k2; simp [n6]
+      · subst k2; simp
       · by_cases k3 : k = GRPC_STATUS_DETAILS
         · subst k3; simp
         · simp [k1, k2, k3]
-  obtain ⟨st', h1, h2⟩ : ∃ st', fromHeaderMap .fixed (wire st []) = some (.status st') ∧
-      st'.metadata = stripStatus (wire st []) := by
-    unfold fromHeaderMap stripStatus
-    simp only [hget]
-    split <;> (refine ⟨_, rfl, ?_⟩; rfl)
-  exact ⟨_, st', hw, h1, fun k => by rw [h2]; exact hmeta k⟩
+
+/-- On the pinned tree as found the round trip fails for a status whose metadata carries a
+`grpc-status-details-bin` entry while its details are empty: the entry is written to the wire
+and the peer reads it as the details.  Witness: `details = ""`, metadata
+`grpc-status-details-bin: QUJD` reads back with details `ABC`. -/
+theorem C04_status_roundtrip_unfixed_fails :
+    ¬ ∀ st : St, Utf8.valid st.message = true →
+      ∃ h st', addHeader .orig st [] = .ok h ∧ fromHeaderMap .fixed h = some (.status st') ∧
+        st'.details = st.details := by
+  intro hall
+  have := hall { code := .invalidArgument, message := [], details := [],
+                 metadata := [(GRPC_STATUS_DETAILS, [81, 85, 74, 68])] } (by decide)
+  obtain ⟨h, st', h1, h2, h3⟩ := this
+  rw [addHeader_eq] at h1
+  cases h1
+  revert h2 h3
+  generalize hw : wire Variant.orig _ _ = w
+  have : w = [(GRPC_STATUS_DETAILS, [81, 85, 74, 68]), (GRPC_STATUS, [51])] := by rw [← hw]; decide
+  subst this
+  intro h3 h2
+  have h4 : fromHeaderMap .fixed [(GRPC_STATUS_DETAILS, [81, 85, 74, 68]), (GRPC_STATUS, [51])] =
+      some (.status { code := .invalidArgument, message := [], details := [65, 66, 67], metadata := [] }) := by decide
+  rw [h4] at h2
+  cases h2
+  simp at h3
 
 /-! ## reading arbitrary peer headers -/
 
@@ -352,10 +355,9 @@ private def exSt : St :=
   { code := .dataLoss, message := [37, 10, 195, 169, 32], details := [0, 255],
     metadata := [(HMap.name "x-a", [49]), (HMap.name "te", [120]), (HMap.name "x-a", [50])] }
 
-example : Utf8.valid exSt.message = true ∧ (exSt.details ≠ [] ∨ HMap.getAll GRPC_STATUS_DETAILS exSt.metadata = []) := by
-  decide
+example : Utf8.valid exSt.message = true := by decide
 /- … and its wire form is what the theorems say -/
-example : (toHeaderMap exSt).toOption = some
+example : (toHeaderMap .fixed exSt).toOption = some
     [(HMap.name "x-a", [49]), (HMap.name "x-a", [50]), (GRPC_STATUS, [49, 53]),
      (GRPC_MESSAGE, HMap.name "%25%0A%C3%A9%20"), (GRPC_STATUS_DETAILS, HMap.name "AP8")] := by decide
 /- malformed inputs exist on both sides of `C04_read_is_spec` -/
